@@ -1,5 +1,6 @@
 (* C06 - nested (path-addressed) updates and slices follow list/dict semantics.  Statements only. *)
-From RU Require Import Base Types Defs BitReader World WireSpec BitReaderProofs NestedProofs NestedGlue NestedDict Layout LayoutProofs.
+From RU Require Import Base Types Defs BitReader World WireSpec BitReaderProofs NestedProofs NestedGlue NestedDict Layout LayoutProofs NestedHistory.
+From Coq Require Import Lia.
 Open Scope N_scope.
 
 (* the bit path: for every value and every valid path of any depth, the encoding "1 + index in bits_required(size) bits
@@ -113,3 +114,55 @@ Print Assumptions C06_nested_packet_reaches_apply.
 Theorem C06_step_is_table_driven : forall St w c pl, step_class St w c pl = step_layout St w c pl.
 Proof. exact step_class_is_layout. Qed.
 Print Assumptions C06_step_is_table_driven.
+
+(* ---- whole histories ----
+   After ANY sequence of nested payloads applied to an entity - element sets, dict-field sets, slice replace / insert / delete, at any depth below
+   any client property, each payload being the encoding of its operation in the state REACHED when it arrives - the client properties are the
+   fold of the corresponding ordinary list / dict updates, and type, id, base and cell properties and pose are untouched. *)
+Theorem C06_nested_history : forall St m h e, nhistory St m e h ->
+  exists e', run_nested St m e h = Ok e' /\
+             en_client e' = fold_left (spec_nop m) (map (fun x => fst (fst x)) h) (en_client e) /\
+             en_base e' = en_base e /\ en_cell e' = en_cell e /\ en_vol e' = en_vol e /\ en_id e' = en_id e /\ en_type e' = en_type e.
+Proof. exact nested_history. Qed.
+Print Assumptions C06_nested_history.
+
+Local Open Scope string_scope.
+(* non-vacuity: a property `lst` (list of UINT8) and a property `dct` ({a: UINT16, b: list of UINT8}); set lst[1], append two elements by a slice,
+   set dct.a, delete dct.b[0:1]: every payload is the encoding of its operation in the state reached, and the result is the obvious one *)
+Definition ex6_lst := {| p_name := "lst"; p_type := TArray (TUInt 1) None; p_flags := 0 |}.
+Definition ex6_dt := [("a", TUInt 2); ("b", TArray (TUInt 1) None)].
+Definition ex6_dct := {| p_name := "dct"; p_type := TDict ex6_dt false; p_flags := 0 |}.
+Definition ex6_m : emodel := {| e_methods := []; e_client := [ex6_lst; ex6_dct]; e_internal := [ex6_lst; ex6_dct]; e_cell := []; e_base := []; e_vol := [] |}.
+Definition ex6_e : entity :=
+  {| en_id := 5; en_type := "Thing"; en_base := []; en_cell := []; en_vol := [];
+     en_client := [("lst", VList (TUInt 1) [VInt 1; VInt 2; VInt 3]); ("dct", VDict ex6_dt [("a", VInt 7); ("b", VList (TUInt 1) [VInt 9; VInt 8])])] |}.
+Definition ex6_St : setup := {| s_game := Wows; s_table := []; s_names := ["Thing"]; s_models := [("Thing", ex6_m)]; s_msubs := []; s_mcounts := []; s_psubs := []; s_nsubs := [] |}.
+Definition ex6_ops : list nop := [NSetElem 0 [] 1 (VInt 50); NSlice 0 [] 3 3 [VInt 60; VInt 61]; NSetField 1 [] 0 (VInt 300); NSlice 1 [1%nat] 0 1 []].
+Definition ex6_final := fold_left (spec_nop ex6_m) ex6_ops (en_client ex6_e).
+Example ex6_spec_result :
+  ex6_final = [("lst", VList (TUInt 1) [VInt 1; VInt 50; VInt 3; VInt 60; VInt 61]); ("dct", VDict ex6_dt [("a", VInt 300); ("b", VList (TUInt 1) [VInt 8])])].
+Proof. vm_compute. reflexivity. Qed.
+
+Definition ex6_pl1 : bytes :=
+  (pack_bits (to_bits 1 1 ++ to_bits (bits_required 2) 0 ++ [false] ++ to_bits (bits_required 3) 1) ++ wire_encode 1 (TUInt 1) (VInt 50))%list.
+Definition ex6_pl2 : bytes :=
+  (pack_bits (to_bits 1 1 ++ to_bits (bits_required 2) 0 ++ [false] ++ to_bits (bits_required (3 + 1)) 3 ++ to_bits (bits_required (3 + 1)) 3)
+   ++ encode_many (TUInt 1) [VInt 60; VInt 61])%list.
+Definition ex6_h : list (nop * bool * bytes) := [(NSetElem 0 [] 1 (VInt 50), false, ex6_pl1); (NSlice 0 [] 3 3 [VInt 60; VInt 61], true, ex6_pl2)].
+Example ex6_history :
+  nhistory ex6_St ex6_m ex6_e ex6_h /\
+  (match run_nested ex6_St ex6_m ex6_e ex6_h with
+   | Ok e' => assoc_get "lst" (en_client e') = Some (VList (TUInt 1) [VInt 1; VInt 50; VInt 3; VInt 60; VInt 61])
+   | Err _ => False end).
+Proof.
+  split.
+  - unfold ex6_h. apply nh_cons.
+    + unfold ex6_pl1. apply (po_elem ex6_m ex6_e 0 ex6_lst (VList (TUInt 1) [VInt 1; VInt 2; VInt 3]) [] [false] (TUInt 1) [VInt 1; VInt 2; VInt 3] 1 (VInt 50));
+        try reflexivity; cbn; [lia | lia | discriminate].
+    + intros e' cs H. vm_compute in H. inversion H; subst e' cs. apply nh_cons.
+      * unfold ex6_pl2.
+        apply (po_slice ex6_m _ 0 ex6_lst (VList (TUInt 1) [VInt 1; VInt 50; VInt 3]) [] [false] (TUInt 1) [VInt 1; VInt 50; VInt 3] 3 3 [VInt 60; VInt 61]);
+          try reflexivity; try (apply N.ltb_lt; reflexivity); repeat constructor; cbn; try lia; try discriminate.
+      * intros e'' cs' H'. apply nh_nil.
+  - vm_compute. reflexivity.
+Qed.
